@@ -1,7 +1,7 @@
 /-
 C26 — property theorems.
 -/
-import TornadoModel.C26.Inv2
+import TornadoModel.C26.Inv3
 namespace TornadoModel.C26
 
 /-- **normpath_no_dotdot.**  For every absolute path `p` (in particular `join(root, url_path)` for an absolute root),
@@ -168,6 +168,8 @@ theorem handle_inside_root (cfg : Cfg) (pat : Pat) (target : Str) (fs : Str → 
   simp only []
   split
   · left; rfl
+  split
+  · left; rfl
   · rename_i g hg
     split
     · left; rfl
@@ -205,6 +207,116 @@ theorem root_test_is_containment (root urlPath : Str) (hr : isAbs root = true) (
       ↔ (initialSlashes root = initialSlashes (pjoin root urlPath) ∧ Spec.inside root (pjoin root urlPath) = true)) :=
   prefixTest_iff root (pjoin root urlPath) hr (pjoin_abs root urlPath hr) hne
 
+/-! ### the default file of a directory, and containment stated on the looked-at path itself (review S2-a) -/
+
+/-- **served_inside_spec.**  For an absolute root other than `/` and a configured `default_filename` that is a plain file name
+(`Good`: non-empty, not `.`/`..`, no `/`): every path the handler asks the filesystem about, and the file it opens — the
+normalized request path *or the default file joined to it* — lies inside the root component-wise (`Spec.inside`), and a
+directory redirect is only issued for a directory inside the root. -/
+theorem served_inside_spec (cfg : Cfg) (reqPath urlPath : Str) (fs : Str → Kind)
+    (hr : isAbs cfg.root = true) (hne : Spec.resolve cfg.root ≠ [])
+    (hd : ∀ d, cfg.defaultFile = some d → Good d) :
+    (∀ q ∈ (serve cfg reqPath urlPath fs).2, Spec.inside cfg.root q.path = true)
+    ∧ (∀ p, (serve cfg reqPath urlPath fs).1 = .served p → Spec.inside cfg.root p = true)
+    ∧ (∀ loc, (serve cfg reqPath urlPath fs).1 = .redirect loc →
+        Spec.inside cfg.root (absolutePath cfg.root urlPath) = true ∧ fs (absolutePath cfg.root urlPath) = .dir) := by
+  have h := served_inside_root cfg reqPath urlPath fs
+  have hp := pjoin_abs cfg.root urlPath hr
+  have hg : Good [97] := by simp [Good, dot, dotdot, cSlash]
+  have key : prefixTest cfg.root (absolutePath cfg.root urlPath) = true →
+      ∀ x, (x = absolutePath cfg.root urlPath ∨ ∃ d, cfg.defaultFile = some d ∧ x = pjoin (absolutePath cfg.root urlPath) d) →
+        Spec.inside cfg.root x = true := by
+    intro ht x hx
+    rcases hx with hx | ⟨d, hdd, hx⟩
+    · subst hx
+      exact (join_name_inside cfg.root (pjoin cfg.root urlPath) [97] hr hp hne hg ht).1
+    · subst hx
+      exact (join_name_inside cfg.root (pjoin cfg.root urlPath) d hr hp hne (hd d hdd) ht).2.1
+  refine ⟨?_, ?_, ?_⟩
+  · intro q hq
+    have := h.1 q hq
+    exact key this.1 _ this.2
+  · intro p hpp
+    have := h.2.1 p hpp
+    exact key this.1 _ this.2
+  · intro loc hl
+    have := h.2.2 loc hl
+    exact ⟨key this.1 _ (Or.inl rfl), this.2⟩
+
+/-- the default file that is served is the entry `default_filename` of the directory the URL denotes -/
+theorem default_file_denotes (cfg : Cfg) (urlPath d : Str) (hr : isAbs cfg.root = true) (hne : Spec.resolve cfg.root ≠ [])
+    (hd : Good d) (ht : prefixTest cfg.root (absolutePath cfg.root urlPath) = true) :
+    Spec.resolve (pjoin (absolutePath cfg.root urlPath) d) = Spec.resolve (pjoin cfg.root urlPath) ++ [d] :=
+  (join_name_inside cfg.root (pjoin cfg.root urlPath) d hr (pjoin_abs cfg.root urlPath hr) hne hd ht).2.2
+
+/-- the same for a whole request (routing, argument decoding, handler) -/
+theorem handle_inside_spec (cfg : Cfg) (pat : Pat) (target : Str) (fs : Str → Kind)
+    (hr : isAbs cfg.root = true) (hne : Spec.resolve cfg.root ≠ [])
+    (hd : ∀ d, cfg.defaultFile = some d → Good d) :
+    (∀ q ∈ (handle cfg pat target fs).2, Spec.inside cfg.root q.path = true)
+    ∧ (∀ p, (handle cfg pat target fs).1 = .served p → Spec.inside cfg.root p = true) := by
+  unfold handle
+  simp only []
+  split
+  · simp
+  split
+  · simp
+  · split
+    · simp
+    · rename_i p _
+      have := served_inside_spec cfg (pathOfTarget target) p fs hr hne hd
+      exact ⟨this.1, this.2.1⟩
+
+/-- a whole request redirects only for a directory inside the root (the directory the decoded URL path denotes) -/
+theorem handle_redirect_inside_spec (cfg : Cfg) (pat : Pat) (target : Str) (fs : Str → Kind)
+    (hr : isAbs cfg.root = true) (hne : Spec.resolve cfg.root ≠ [])
+    (hd : ∀ d, cfg.defaultFile = some d → Good d) (loc : Str)
+    (h : (handle cfg pat target fs).1 = .redirect loc) :
+    ∃ g p, capture pat (pathOfTarget target) = some g ∧ decodeArg g = some p ∧
+      Spec.inside cfg.root (absolutePath cfg.root p) = true ∧ fs (absolutePath cfg.root p) = .dir := by
+  unfold handle at h
+  simp only [] at h
+  split at h
+  · cases h
+  split at h
+  · cases h
+  · rename_i g hg
+    split at h
+    · cases h
+    · rename_i p hp
+      have := (served_inside_spec cfg (pathOfTarget target) p fs hr hne hd).2.2 loc h
+      exact ⟨g, p, hg, hp, this.1, this.2⟩
+
+/-- **handle_outcome_cases.**  A whole request ends in: a served file, a directory redirect, 403, 404 (from the handler or
+because the URL pattern did not match) — or 400, and that only when the request line is malformed (the target is empty or
+has a character outside `[\x21-\x7e\x80-\xff]`: rejected by the HTTP parser) or the captured group is not percent-encoded
+UTF-8, which `RequestHandler._execute` rejects before `StaticFileHandler.get` runs; no filesystem query is made then. -/
+theorem handle_outcome_cases (cfg : Cfg) (pat : Pat) (target : Str) (fs : Str → Kind) :
+    (∃ p, (handle cfg pat target fs).1 = .served p) ∨ (∃ l, (handle cfg pat target fs).1 = .redirect l)
+    ∨ (handle cfg pat target fs).1 = .forbidden ∨ (handle cfg pat target fs).1 = .notFound
+    ∨ ((handle cfg pat target fs) = (.notRouted, []) ∧ capture pat (pathOfTarget target) = none)
+    ∨ ((handle cfg pat target fs) = (.badRequest, []) ∧
+        (validTarget target = false ∨ ∃ g, capture pat (pathOfTarget target) = some g ∧ decodeArg g = none)) := by
+  unfold handle
+  simp only []
+  split
+  · rename_i hv
+    right; right; right; right; right
+    exact ⟨rfl, Or.inl (by simpa using hv)⟩
+  split
+  · rename_i hc; simp [hc]
+  · rename_i g hg
+    split
+    · rename_i hdec
+      right; right; right; right; right
+      exact ⟨rfl, Or.inr ⟨g, hg, hdec⟩⟩
+    · rename_i p _
+      rcases outcome_cases cfg (pathOfTarget target) p fs with h | h | h | h
+      · exact Or.inl h
+      · exact Or.inr (Or.inl h)
+      · exact Or.inr (Or.inr (Or.inl h))
+      · exact Or.inr (Or.inr (Or.inr (Or.inl h)))
+
 /-! ### non-vacuity -/
 def exRoot : Str := [47, 119, 47, 114]                          -- "/w/r"
 def exFs (p : Str) : Kind := if p = [47, 119, 47, 114, 47, 97] then .file else if p = [47, 119, 47, 115] then .file else .absent
@@ -222,5 +334,12 @@ example : Spec.inside exRoot [47, 119, 47, 120, 47, 46, 46, 47, 114, 47, 97] = t
 example : prefixTest exRoot (normpath [47, 119, 47, 120, 47, 46, 46, 47, 114, 47, 97]) = true := by decide
 example : Spec.inside exRoot [47, 119, 47, 114, 50, 47, 97] = false := by decide
 example : normpath [47, 47, 97, 47, 46, 46, 47, 47, 98, 47, 46, 47] = [47, 47, 98] := by decide   -- "//a/..//b/./" → "//b"
+
+-- the default file: root "/w/r", directory "/w/r/d" with "i" inside; `Good` is needed: with default "../s" the joined path leaves the root
+def exFs2 (p : Str) : Kind := if p = [47, 119, 47, 114, 47, 100] then .dir else if p = [47, 119, 47, 114, 47, 100, 47, 105] then .file else .absent
+example : serve { root := exRoot, defaultFile := some [105] } [47, 100, 47] [100, 47] exFs2 = (.served [47, 119, 47, 114, 47, 100, 47, 105],
+    [.isdir [47, 119, 47, 114, 47, 100], .exists [47, 119, 47, 114, 47, 100, 47, 105], .isfile [47, 119, 47, 114, 47, 100, 47, 105]]) := by decide
+example : Good [105] := by simp [Good, dot, dotdot, cSlash]
+example : Spec.inside exRoot (pjoin (absolutePath exRoot []) [46, 46, 47, 115]) = false := by decide   -- default "../s": not a plain name
 
 end TornadoModel.C26
